@@ -12,8 +12,12 @@ RULE = ("correspondence: the Gallina functions generated from utils.py vs the re
         "3*2^k, 5*2^k, random 64/200-bit integers, strings of every lexical class (oracle results of "
         "str.isnumeric/int supplied per case), sizes 1000*2^e+d and random sizes < 2^50, next_power_2 on 1..5000 "
         "and 2^k+-1; end-to-end: the implementation vs the property's own rule on the same domain and through "
-        "TorrentFile(piece_length=), `create --piece-length` and the config key piece-length. A case is non-trivial "
-        "when it is distinct; ranges count once per range.")
+        "TorrentFile(piece_length=), `create --piece-length` and the config key piece-length; automatic choice in one process: "
+        "every creator and the command line create, without a piece length, the same relative path string from two working "
+        "directories (payload above the first threshold of the choice function, then ~1/16 of it; and the reverse) and the same "
+        "absolute path after the payload grew / shrank across that threshold (sparse files) -- each recorded piece length must "
+        "equal get_piece_length(total of THAT payload) and what a fresh interpreter records for it, be a power of two in range and "
+        "be monotone in the total. A case is non-trivial when it is distinct; ranges count once per range.")
 TRUSTED_BASE = [
     "Coq 8.16.1 kernel (coqc, vm_compute); no axioms (every theorem: Closed under the global context)",
     "translator gen/pyfun2coq.py + gen/gen_piecelength.py (Python ast -> Gallina), checked on every run by the vm_compute correspondence",
@@ -90,6 +94,143 @@ def check_int_against_spec(ctx, fn, n, route):
     if not ok:
         ctx.fail("piece-length-rule", {"route": route, "piece_length": n}, list(sp), list(r))
     return r
+
+
+# ------------------------------------------------------------------------------------------------ automatic choice, in process
+# One process creates several metafiles in a row WITHOUT a piece length.  The piece length recorded in each must be a function
+# of THAT payload's total size: the value of the pure function get_piece_length (tied to the generated model above, in range and
+# monotone by the theorems) on the total, which is also what a fresh interpreter records for the same payload -- whatever the
+# process saw before under the same path string.  On top: power of two in 2^14..2^24, monotone in the total along the sequence.
+AUTO_CREATORS = ["TorrentFile", "TorrentFileV2", "TorrentFileHybrid", "TorrentAssembler", "cli"]
+
+
+def sequences(gpl):
+    """name -> [[directory, spelling of the path, total size of the payload at that moment]]; the sizes straddle the first
+       threshold of the implementation's own choice function (1000 x 16 KiB on the pinned tree)"""
+    lo, hi = 0, 1 << 32                   # largest total that still gets the smallest piece length (the function is monotone)
+    base = gpl(0)
+    if gpl(hi) == base:
+        edge = 1000 * 16384
+    else:
+        while hi - lo > 1:
+            mid = (lo + hi) // 2
+            lo, hi = (mid, hi) if gpl(mid) == base else (lo, mid)
+        edge = lo
+    edge = min(max(edge, 1 << 16), 1 << 26)
+    big, small = edge + edge // 27, max(edge // 16, 4096)     # 17 MB and 1 MB for the threshold 1000 x 16 KiB
+    return {
+        "same relative path string from two working directories, big then small": [["A", "relative", big], ["B", "relative", small]],
+        "same relative path string from two working directories, small then big": [["C", "relative", small], ["D", "relative", big]],
+        "same absolute path, payload grown then shrunk across the first threshold": [["E", "absolute", edge], ["E", "absolute", edge + 1],
+                                                                                  ["E", "absolute", edge]],
+    }
+
+
+def set_payload(d, name, total):
+    """<d>/<name>/{f: 10 bytes, sparse.img: a hole}: `total` bytes altogether, nothing large is written"""
+    os.makedirs(os.path.join(d, name), exist_ok=True)
+    with open(os.path.join(d, name, "f"), "wb") as fd:
+        fd.write(b"x" * 10)
+    with open(os.path.join(d, name, "sparse.img"), "ab") as fd:
+        fd.truncate(total - 10)
+
+
+def fresh_auto(tmp, totals):
+    """{total: piece length recorded by TorrentFile(path=...) without a piece length, each in a fresh interpreter}"""
+    import subprocess
+    import concurrent.futures
+    import pyben
+    code = ("import sys\nfrom torrentfile import torrent\n"
+            "torrent.TorrentFile(path=sys.argv[1], outfile=sys.argv[2], progress=0).write()\n")
+
+    def one(total):
+        d = os.path.join(tmp, f"fresh{total}")
+        set_payload(d, "payload", total)
+        out = os.path.join(d, "o.torrent")
+        p = subprocess.run([core.PY, "-c", code, "payload", out], cwd=d, env=core.impl_env({"HOME": tmp}), capture_output=True,
+                           text=True, timeout=300)
+        if p.returncode != 0 or not os.path.exists(out):
+            return ("exc", (p.stderr or p.stdout)[-300:])
+        return ("ret", pyben.load(out)["info"]["piece length"])
+    with concurrent.futures.ThreadPoolExecutor(4) as ex:
+        return dict(zip(totals, ex.map(one, totals)))
+
+
+def run_sequence(tmp, creator, steps, tag):
+    """the creates of one sequence by one creator, in this process: [('ret', piece length) | ('exc', name)] per step"""
+    from torrentfile import torrent
+    from torrentfile.cli import execute
+    import pyben
+    name = "payload" if creator == "TorrentFile" else "payload-" + creator      # one path string per creator and sequence
+    base = os.path.join(tmp, "seq", tag, creator)
+    cwd0 = os.getcwd()
+    res = []
+    for k, (d, spelling, total) in enumerate(steps):
+        wd = os.path.join(base, d)
+        set_payload(wd, name, total)
+        path = name if spelling == "relative" else os.path.join(wd, name)
+        out = os.path.join(wd, f"o{k}.torrent")
+        sink = io.StringIO()
+        try:
+            os.chdir(wd)
+            with contextlib.redirect_stdout(sink), contextlib.redirect_stderr(sink):
+                if creator == "cli":
+                    execute(["create", "-o", out, "--prog", "0", path])
+                else:
+                    kw = {"meta_version": "3"} if creator == "TorrentAssembler" else {}
+                    getattr(torrent, creator)(path=path, outfile=out, progress=0, **kw).write()
+            r = ("ret", pyben.load(out)["info"]["piece length"])
+        except (Exception, SystemExit) as e:  # noqa
+            r = ("exc", type(e).__name__)
+        finally:
+            os.chdir(cwd0)
+        res.append(r)
+    return res
+
+
+def judge_sequence(steps, res, fresh, gpl):
+    """[(kind, step index, expected, observed)] for the piece lengths one creator recorded along one sequence"""
+    out = []
+    for k, ((d, spelling, total), r) in enumerate(zip(steps, res)):
+        if r[0] != "ret" or not isinstance(r[1], int) or r[1] & (r[1] - 1) or not 2 ** 14 <= r[1] <= 2 ** 24:
+            out.append(("auto-piece-length-range", k, "a power of two in 2^14..2^24", list(r)))
+            continue
+        pure = call(gpl, total)
+        if pure != ("ret", r[1]) or fresh.get(total) != ("ret", r[1]):
+            out.append(("auto-piece-length-stale", k, {"get_piece_length(total of this payload)": list(pure),
+                                                       "fresh interpreter on the same payload": list(fresh.get(total, ("?",)))}, r[1]))
+    seen = sorted((steps[k][2], r[1], k) for k, r in enumerate(res) if r[0] == "ret" and isinstance(r[1], int))
+    for (s1, p1, k1), (s2, p2, k2) in zip(seen, seen[1:]):
+        if s2 > s1 and p2 < p1:
+            out.append(("auto-piece-length-monotone", k2, f">= {p1} (recorded for {s1} bytes at step {k1})", p2))
+    return out
+
+
+def seq_input(creator, seq, steps, k):
+    return {"route": "in-process sequence, no piece length given", "creator": creator, "sequence": seq, "failing_step": k,
+            "steps": [list(st) for st in steps],
+            "payload": "directory {f: 10 bytes, sparse.img: a hole of total - 10 bytes}"}
+
+
+def auto_sequences(ctx, tmp):
+    from torrentfile import utils
+    seqs = sequences(utils.get_piece_length)
+    totals = sorted({t for st in seqs.values() for _, _, t in st})
+    fresh = fresh_auto(tmp, totals)
+    for t in totals:
+        if fresh[t][0] != "ret":
+            ctx.broken.append(f"fresh-interpreter create of a {t}-byte payload failed: {fresh[t][1]}")
+    if len({fresh[t] for t in totals}) < 2:
+        ctx.notes.append("automatic piece length: the sequences do not cross a threshold of the implementation's choice function")
+    for creator in AUTO_CREATORS:
+        for seq, steps in seqs.items():
+            res = run_sequence(tmp, creator, steps, "run")
+            for k in range(len(res)):
+                ctx.case(key=("auto-seq", creator, seq, k), classes=["auto in-process sequence", "auto creator " + creator],
+                         sample=dict(seq_input(creator, seq, steps, k), recorded=[list(r) for r in res])
+                         if creator == "cli" and k == 1 and "grown" in seq else None)
+            for kind, k, exp, obs in judge_sequence(steps, res, fresh, utils.get_piece_length):
+                ctx.fail(kind, seq_input(creator, seq, steps, k), exp, obs)
 
 
 def run(ctx, model_ok):
@@ -299,12 +440,28 @@ def run(ctx, model_ok):
                 ctx.case(key=("sparse", size), classes=["auto sparse file"])
         finally:
             os.chdir(cwd)
+        auto_sequences(ctx, tmp)
 
 
 def replay(ctx, data):
     core.use_repo_in_process()
     from torrentfile import utils
     inp = data.get("input", {})
+    if isinstance(inp.get("steps"), list) and inp.get("creator") in AUTO_CREATORS:
+        with core.Scratch("vc12r_") as tmp:
+            os.environ["HOME"] = tmp
+            steps, creator = [tuple(st) for st in inp["steps"]], inp["creator"]
+            fresh = fresh_auto(tmp, sorted({t for _, _, t in steps}))
+            res = run_sequence(tmp, creator, steps, "replay")
+            print(f"[C12 replay] {creator}, no piece length given, one process; {inp.get('sequence')}:")
+            for (d, spelling, total), r in zip(steps, res):
+                print(f"   directory {d}, {spelling} path, payload of {total} bytes: recorded {r}; get_piece_length({total}) = "
+                      f"{call(utils.get_piece_length, total)}; fresh interpreter {fresh.get(total)}")
+            probs = judge_sequence(steps, res, fresh, utils.get_piece_length)
+        for kind, k, exp, obs in probs:
+            print(f"[C12 replay] VIOLATION {kind} at step {k}: expected {exp}, observed {obs}")
+        print("[C12 replay] verdict:", "property VIOLATED on this input" if probs else "the property holds on this input")
+        return 1 if probs else 0
     if "piece_length" in inp:
         r = call(utils.normalize_piece_length, inp["piece_length"])
         print("normalize_piece_length(%r) -> %r ; rule: %r" % (inp["piece_length"], r,
